@@ -26,7 +26,8 @@ def gen_strings(rng, n):
 # *_map / *_list: the value sits inside a mapping or a list nested in the loop item / vars / set_vars value
 # shadow: the variable carrying the value has the NAME of an earlier parameter of the same task (mode / chdir): the user's variable must win
 # suffix: the templated text ENDS in a file extension (.html, .json, .yml ...): no escaping may be switched on by it
-CHANNELS = ["direct", "loop", "vars", "set_vars", "register", "loop_map", "loop_list", "vars_map", "set_vars_map", "shadow", "suffix"]
+# loop_tpl: the loop is given as ONE template that evaluates to a list
+CHANNELS = ["direct", "loop", "vars", "set_vars", "register", "loop_map", "loop_list", "vars_map", "set_vars_map", "shadow", "suffix", "loop_tpl"]
 EXTS = [".html", ".htm", ".xml", ".json", ".json5", ".js", ".yaml", ".yml", ".j2", ".html.j2", ".txt"]
 
 
@@ -49,6 +50,9 @@ def script(channel, root, v=""):
     elif channel == "set_vars":
         pre = "- set_vars:\n    x: \"%s\"\n" % src
         use = "{{ x }}"
+    elif channel == "loop_tpl":
+        use = "{{ item }}"
+        extra = "  loop: \"{{ [env.VP] }}\"\n"
     elif channel == "loop_map":
         use = "{{ item.text }}"
         extra = "  loop:\n    - {text: \"%s\", n: 1}\n" % src
@@ -142,6 +146,9 @@ def c12(run, replay=None):
             continue
         desc = dict(value=v, channel=ch, observed=dict(rc=o["rc"], file=None if o["file"] is None else o["file"].decode("utf-8", "replace"),
                                                        argv=None if o["argv"] is None else [a.decode("utf-8", "replace") for a in o["argv"]], stderr=o["stderr"]))
+        if ch == "loop_tpl" and cls[v]["has_open"]:
+            run.known("K42-template-loop-renders-items-again", "")
+            continue
         if ch in ("vars", "set_vars", "vars_map", "set_vars_map", "shadow") and cls[v]["retyped"]:
             if ch.startswith("set_vars") and cls[v]["has_open"]:
                 run.known("K6-set-vars-renders-twice", "")
